@@ -120,6 +120,23 @@ CLAIMED = {
         'documented confidence key. CSV quoting, name-table translation '
         'and float round-trip equality are not decided.',
         'DESIGN.md section 5, C15'),
+    'C16': (
+        'interprocedural path-effect analysis, freshness provenance of '
+        'helper arguments, dominance / reachability of rejection points, '
+        'constant propagation under assumptions, R-ARMS contradiction '
+        'rule, value identity',
+        'Decides: validation has no write/remove effect on its input and '
+        'every mutating helper acts on the mkstemp scratch copy; the '
+        'output location is written only by the final copy of that '
+        'scratch file, after which nothing can reject the input; nothing '
+        'is written and None returned when nothing needs changing, else '
+        'the output path is returned; log/no-log arms agree on raising '
+        'and the three censuses raise; integrality test, min/max and copy '
+        'use the requested layer and the rounding dtype comes from that '
+        'min/max; renaming and mapped-gene count reach the file. Rounding '
+        'distance, dtype width at boundaries, the Ensembl pattern and '
+        'placeholder uniqueness are not decided.',
+        'DESIGN.md section 5, C16'),
     'C17': (
         'value provenance on symbolic terms (versions of the rebound tree '
         'variable), dominance guard with sibling cross-check',
